@@ -39,6 +39,8 @@ pub struct Feat {
     pub witnesses: bool,
     /// `cardano::publish` blocks (outputs carrying a reference script)
     pub publish: bool,
+    /// `cardano::vote_delegation_certificate` blocks
+    pub certificates: bool,
     /// `policy P = 0x..` used where a byte string is expected (datum field / AnyAsset policy)
     pub assign_policy_as_bytes: bool,
     /// argument pool: false = comfortable (amounts stay in range), true = boundary-heavy
@@ -87,6 +89,7 @@ impl Feat {
             donation: false,
             witnesses: false,
             publish: true,
+            certificates: true,
             assign_policy_as_bytes: true,
             boundary_args: false,
             mixed_case: true,
@@ -1515,6 +1518,22 @@ impl<'t, 'c> Gen<'t, 'c> {
             self.mark("donation");
             let coin = self.gen_int(false, 2, nl);
             self.cur.cardano.push(GDirective::TreasuryDonation { coin });
+        }
+        if self.feat.certificates && self.t.chance(1, 6) {
+            self.mark("vote_delegation");
+            let n = 1 + self.t.pick(2);
+            let mut made: Vec<(usize, u8)> = vec![];
+            for _ in 0..n {
+                // a second certificate repeats the first one one time in three: certificates form a set
+                let (p, s) = if !made.is_empty() && self.t.chance(1, 3) {
+                    self.mark("vote_delegation_repeated");
+                    made[0]
+                } else {
+                    (self.t.pick(self.prog.parties.len()), self.t.pick(50) as u8)
+                };
+                made.push((p, s));
+                self.cur.cardano.push(GDirective::VoteDelegation { drep: GExpr::Hex(fixed_bytes(s, 28)), stake: GExpr::Party(p) });
+            }
         }
         if self.feat.publish && self.t.chance(1, 5) {
             self.mark("publish");
